@@ -106,12 +106,13 @@ structure Query where
   end_ : Nat
   filter : Filter
   stages : List Stage
+  ftext : String := ""     -- the filter as written on the op line
 
 def parseQuery (tok : String) : Option Query :=
   match tok.splitOn "/" with
   | "q" :: a :: b :: c :: d :: f :: stages =>
     match a.toNat?, b.toNat?, c.toNat?, d.toNat?, parseFilter f, stages.mapM parseStage with
-    | some a, some b, some c, some d, some f, some st => some { from_ := a, size := b, start := c, end_ := d, filter := f, stages := st }
+    | some a, some b, some c, some d, some flt, some st => some { from_ := a, size := b, start := c, end_ := d, filter := flt, stages := st, ftext := f }
     | _, _, _, _, _, _ => none
   | _ => none
 
@@ -157,8 +158,18 @@ def numStrGrants (blocks : List (List Event)) : List (Nat × String) :=
 def showKey (k : List String) : String := "\x1f".intercalate k
 def hexOf (s : String) : String := bytesHex (s.toUTF8.toList.map (·.toNat))
 
-/-- the specification's answer; `blocks` = the flushed events in their blocks (only the latitude `nsgrant` of `recs` depends on the blocks) -/
-def answerB (blocks : List (List Event)) (q : Query) : String :=
+/-- does a free-text term sit under an odd number of NOTs -/
+def hasNegTerm : Filter → Bool → Bool
+  | .all, _ => false
+  | .term _, neg => neg
+  | .cmp _ _ _, _ => false
+  | .and a b, neg => hasNegTerm a neg || hasNegTerm b neg
+  | .or a b, neg => hasNegTerm a neg || hasNegTerm b neg
+  | .not a, neg => hasNegTerm a (!neg)
+
+/-- the specification's answer; `blocks` = the flushed events in their blocks (only the latitude `nsgrant` of `recs` depends
+on the blocks); `pqFilters` = the filters that were run INSIDE the history (tokens `rq/…`) with persistent-query results on -/
+def answerB (blocks : List (List Event)) (q : Query) (pqFilters : List String := []) : String :=
   let evs := blocks.flatten
   let inr := evs.filter (inRange q.start q.end_)
   let tri := inr.map (fun e => (e, evalFilter e q.filter))
@@ -166,7 +177,11 @@ def answerB (blocks : List (List Event)) (q : Query) : String :=
   -- engine by the statement (`may`), but the engine's answer must not depend on the layout (two-layout cases;
   -- the class labels negation-over-sparse-field / number-and-text-share-column were retired with the repairs
   -- c02-1, c02-2, c02-4: such a disagreement is now reported without a class)
-  let cls := (tri.flatMap (fun (_, (_, c)) => c)).eraseDups
+  -- recorded deviation (known_findings: e2e/filter/pq-ingest-negated-term): a query with a NEGATED free-text term that was
+  -- already persistent when a segment was created gets that segment's results computed while it is ingested
+  -- (writer.applySearchSingleQuery), and that path ignores the negation of a match filter
+  let pqcls := if pqFilters.contains q.ftext && hasNegTerm q.filter false then ["pq-ingest-negated-term"] else []
+  let cls := (tri.flatMap (fun (_, (_, c)) => c) ++ pqcls).eraseDups
   let must := (tri.filter (fun (_, (t, _)) => t == Tri.yes)).map (·.1)
   let may := (tri.filter (fun (_, (t, _)) => t == Tri.either)).map (·.1)
   match q.stages with
@@ -216,13 +231,15 @@ def answer (evs : List Event) (q : Query) : String := answerB [evs] q
 
 def e2e (args : List String) : String :=
   -- split at the markers H and Q
-  let (_cfg, r1) := args.span (· != "H")
+  let (cfg, r1) := args.span (· != "H")
   let (hist, r2) := (r1.drop 1).span (fun t => t != "Q" && t != "H2")
   -- an optional second layout of the SAME events (H2 …) does not change the specification's answer
   let r2 := r2.dropWhile (· != "Q")
   let qs := (r2.drop 1).filter (· != "w")
   match flushedBlocks hist, qs.mapM parseQuery with
-  | some blocks, some qs => " | ".intercalate (qs.map (answerB blocks))
+  | some blocks, some qs =>
+    let pqf := if cfg.contains "pqs=0" then [] else (hist.filter (·.startsWith "rq/")).map (fun t => (t.drop 3).toString)
+    " | ".intercalate (qs.map (fun q => answerB blocks q pqf))
   | _, _ => "bad-op"
 
 def handle (cmd : String) (args : List String) : Option String :=
